@@ -111,12 +111,15 @@ func c08NewEnv(t *testing.T) *c08Env {
 		_ = b.Close()
 	})
 	e := &c08Env{b: b, gate: g}
-	if !c08Until(func() bool { return b.raft.AppliedIndex() >= 2 && b.AppliedIndex() == b.raft.AppliedIndex() }) {
+	if !c08Until(func() bool { return b.raft.AppliedIndex() >= 2 }) {
 		t.Fatalf("harness: raft did not come up")
 	}
-	// warm-up write
+	// warm-up write; afterwards the FSM index (which skips raft's no-op entries) equals raft's applied index
 	if err := b.Put(context.Background(), &physical.Entry{Key: "warmup", Value: []byte("x")}); err != nil {
 		t.Fatalf("harness: warm-up put: %v", err)
+	}
+	if !c08Until(func() bool { return b.AppliedIndex() == b.raft.AppliedIndex() }) {
+		t.Fatalf("harness: FSM index %d, raft applied index %d after warm-up", b.AppliedIndex(), b.raft.AppliedIndex())
 	}
 	return e
 }
@@ -155,7 +158,7 @@ var c08KindNames = []string{"put", "delete", "begin", "tx-get", "tx-put", "tx-de
 
 func c08ActionGen() *rapid.Generator[c08Action] {
 	// weights
-	kinds := []int{0, 0, 0, 0, 0, 1, 1, 2, 2, 2, 3, 3, 3, 3, 4, 4, 4, 5, 6, 6, 7, 7, 7, 8, 8, 8, 9, 10, 11}
+	kinds := []int{0, 0, 0, 0, 0, 1, 2, 2, 2, 2, 2, 3, 3, 3, 3, 4, 4, 4, 4, 4, 5, 6, 6, 7, 7, 7, 7, 7, 7, 8, 8, 8, 8, 9, 10, 11}
 	return rapid.Custom(func(t *rapid.T) c08Action {
 		a := c08Action{Kind: kinds[rapid.IntRange(0, len(kinds)-1).Draw(t, "kind")]}
 		switch a.Kind {
@@ -536,7 +539,18 @@ func TestVerif_C08_RaftLive(t *testing.T) {
 	ctx := context.Background()
 	rapid.Check(t, func(rt *rapid.T) {
 		caughtUpOnly := rapid.IntRange(0, 9).Draw(rt, "beginOnlyWhenFSMCaughtUp") >= 6
-		actions := rapid.SliceOfN(c08ActionGen(), 1, 30).Draw(rt, "actions")
+		// rapid's slices average min+5 elements; concatenated chunks give long schedules that still shrink by deletion
+		var actions []c08Action
+		for i, n := 0, rapid.IntRange(1, 6).Draw(rt, "chunks"); i < n; i++ {
+			lo := 0
+			if i == 0 {
+				lo = 1
+			}
+			actions = append(actions, rapid.SliceOfN(c08ActionGen(), lo, 10).Draw(rt, "actions")...)
+		}
+		if len(actions) > 30 {
+			actions = actions[:30]
+		}
 		env.caseNo++
 		r := &c08Run{rt: rt, env: env, b: env.b, prefix: fmt.Sprintf("c%d/", env.caseNo), caughtUpOnly: caughtUpOnly}
 		b := env.b
@@ -552,9 +566,18 @@ func TestVerif_C08_RaftLive(t *testing.T) {
 			if r.failed != "" {
 				break
 			}
+			// the slot number picks among the transactions the action applies to (open ones; finished ones for kind 11)
 			var t *c08Txn
 			if a.Kind >= 3 && a.Kind != 8 && a.Kind != 9 {
-				t = r.slots[a.Slot]
+				var cands []*c08Txn
+				for _, x := range r.slots {
+					if x != nil && ((a.Kind == 11 && x.State == 2) || (a.Kind != 11 && x.State == 0)) {
+						cands = append(cands, x)
+					}
+				}
+				if len(cands) > 0 {
+					t = cands[a.Slot%len(cands)]
+				}
 			}
 			switch a.Kind {
 			case 0, 1:
@@ -572,7 +595,14 @@ func TestVerif_C08_RaftLive(t *testing.T) {
 					r.tracef("%d: start %s %s=%q -> @%d (fsm@%d)", ai, op.Kind, op.Key, op.Val, op.Index, b.AppliedIndex())
 				}
 			case 2:
-				if r.slots[a.Slot] != nil && r.slots[a.Slot].State != 2 {
+				slot := -1
+				for i := range r.slots {
+					if j := (a.Slot + i) % len(r.slots); r.slots[j] == nil || r.slots[j].State == 2 {
+						slot = j
+						break
+					}
+				}
+				if slot < 0 {
 					continue
 				}
 				if caughtUpOnly && !r.drain() {
@@ -597,7 +627,7 @@ func TestVerif_C08_RaftLive(t *testing.T) {
 					maxLagAtBegin = nt.Lag
 				}
 				r.txns = append(r.txns, nt)
-				r.slots[a.Slot] = nt
+				r.slots[slot] = nt
 				r.tracef("%d: begin T%d ro=%v start=@%d raftApplied=@%d lag=%d", ai, nt.ID, nt.RO, nt.Start, nt.RaftApplied, nt.Lag)
 			case 3:
 				if t == nil || t.State != 0 {
@@ -714,8 +744,9 @@ func TestVerif_C08_RaftLive(t *testing.T) {
 				_, err := t.tx.Get(ctx, r.prefix+c08Keys[0])
 				err2 := t.tx.Put(ctx, &physical.Entry{Key: r.prefix + c08Keys[0], Value: []byte("late")})
 				err3 := t.tx.Commit(ctx)
-				for _, e := range []error{err, err2, err3} {
-					if !errors.Is(e, physical.ErrTransactionAlreadyCommitted) {
+				for i, e := range []error{err, err2, err3} {
+					// a finished read-only transaction may refuse the write with either error
+					if !errors.Is(e, physical.ErrTransactionAlreadyCommitted) && !(i == 1 && t.RO && errors.Is(e, physical.ErrTransactionReadOnly)) {
 						rec.Violation(rt, "finished-txn-usable", r.detail(nil), "T%d after %s: get/put/commit returned %v / %v / %v", t.ID, t.Finish, err, err2, err3)
 						return
 					}
@@ -737,7 +768,7 @@ func TestVerif_C08_RaftLive(t *testing.T) {
 				t.Finish = "rollback(end)"
 			}
 		}
-		c08Judge(rt, rec, r, caseStart, caughtUpOnly, maxLagAtBegin)
+		c08Judge(rt, rec, r, caseStart, caughtUpOnly, maxLagAtBegin, verifx.Digest("c08b", caughtUpOnly, fmt.Sprint(actions)))
 	})
 }
 
@@ -816,7 +847,7 @@ func c08DescribeEntry(e c08LogEntry) string {
 //	(ii)  the FSM data under the case prefix equals the replay map (committed writes all visible, failed none).
 //	(iii) every value and listing a transaction was given equals the replay map at its start index overlaid
 //	      with its own earlier writes.
-func c08Judge(rt *rapid.T, rec *verifx.Recorder, r *c08Run, caseStart uint64, caughtUpOnly bool, maxLag uint64) {
+func c08Judge(rt *rapid.T, rec *verifx.Recorder, r *c08Run, caseStart uint64, caughtUpOnly bool, maxLag uint64, digest uint64) {
 	b := r.b
 	entries := c08ReadLog(rt, b, caseStart)
 	if len(entries) != len(r.ops) {
@@ -908,7 +939,23 @@ func c08Judge(rt *rapid.T, rec *verifx.Recorder, r *c08Run, caseStart uint64, ca
 				flag("stale-observation-committed", extra, "T%d (begun with the FSM caught up at %d) observed %v; Commit @%d returned nil", t.ID, t.Start, changed, e.Index)
 			}
 		case actualCommit && len(changed) > 0 && av:
-			flag("verification-does-not-cover-observation", extra, "T%d observed %v, every shipped verification hash still matches at @%d, Commit returned nil", t.ID, changed, e.Index)
+			sig := "verification-does-not-cover-observation"
+			phantom := true
+			for _, o := range t.Obs {
+				now := c08Expect(o, cur)
+				if now == o.got() {
+					continue
+				}
+				// listing grew behind the last entry the transaction was shown?
+				if o.Kind != "list" || len(o.GotList) == 0 || (o.Limit > 0 && len(o.GotList) >= o.Limit) ||
+					!strings.HasPrefix(now, strings.TrimSuffix(o.got(), "]")+" ") {
+					phantom = false
+				}
+			}
+			if phantom {
+				sig = "list-verification-truncated-to-entries-seen"
+			}
+			flag(sig, extra, "T%d observed %v, every shipped verification hash still matches at @%d, Commit returned nil", t.ID, changed, e.Index)
 		case !actualCommit && av:
 			flag("conflict-although-every-verification-matches", extra, "T%d: every verification hash of entry @%d matches the replay state, Commit returned %v", t.ID, e.Index, op.err)
 		case actualCommit && !av:
@@ -986,7 +1033,7 @@ func c08Judge(rt *rapid.T, rec *verifx.Recorder, r *c08Run, caseStart uint64, ca
 	render := func() map[string]any {
 		return r.detail(map[string]any{"log": logLines, "fsm": fsmDump})
 	}
-	rec.Case(fmt.Sprintf("caughtUpOnly=%v %s", caughtUpOnly, lagClass), nontrivial, verifx.Digest("c08b", caughtUpOnly, strings.ReplaceAll(strings.Join(r.trace, "|"), r.prefix, "P/")), func() any { return render() })
+	rec.Case(fmt.Sprintf("caughtUpOnly=%v %s", caughtUpOnly, lagClass), nontrivial, digest, func() any { return render() })
 	if commitsSeen > 0 {
 		rec.Class("cases-with-commit", 1)
 	}
